@@ -51,6 +51,8 @@ class Own:
 VALUE_GROUPS = [
     ["{}", "defaultdict(int, {'a': 1})"], ["[]", "[1]"], ["set()", "{1}"], ["None", "[]"], ["{}", "{'a': 1}"], ["()", "(1,)"],
     ["defaultdict(int)", "{'a': 1}"], ["[]", "None", "[A()]"], ["{1: 2}", "{}", "defaultdict(int, {1: 2})"], ["[A, B]", "[int]"],
+    ["[{'a': 1}, {'a': 1, 'b': 's'}]", "[{'a': 1, 'c': 2}]"], ["[{'x': None}, {'y': 'q'}]", "[{'z': 1.5}]", "[]"],
+    ["{'k': [{'a': 1}, {'b': 'x'}]}", "{'k': [{'c': 1.5}]}"], ["({'a': 1},)", "({'a': 1, 'b': 'x'},)"],
     ["Registry", "A"], ["{SKey('a'): 1}", "{'b': 2}"], ["[[]]", "[[1]]", "[]"], ["(1, 'a')", "()"],
 ]
 POOL = [e for e in gv.BASIS if "make_gen" not in e and "lambda" not in e]
